@@ -65,7 +65,14 @@ def opRun (j : Json) : R Json := do
     | .ok (ws, next) => obj [("written", jl (fun (w : Written) => obj [("name", js w.name),
           ("tags", jl (fun (x : V × Int × Int) => Json.arr #[js x.1, ji x.2.1, ji x.2.2]) (w.tags.mergeSort (fun a b => decide (a.1 ≤ b.1))))]) ws), ("next", ji next)]
     | .error w => obj [("crash", js w)]
+  -- the files of the model (`orderFiles`): S lines in order (id, sequence, tags), L lines as written
+  let fileJ (f : GfaFile) : Json := obj [
+    ("segs", jl (fun (x : SegLine) => Json.arr #[js x.id, js x.seq, jl (fun (tg : Tag) => js (tg.name ++ ":" ++ tg.ty ++ ":" ++ tg.val)) x.tags]) f.segs),
+    ("links", jl (fun (l : LinkLine) => Json.arr #[js l.a, jb l.da, js l.b, jb l.db, jn l.ov, jl js l.tags]) f.links)]
+  let filesJ : Json := if big then Json.null else match orderFiles t order (!withSeq) with
+    | .ok fs => jl (fun (p : String × GfaFile) => obj [("name", js p.1), ("file", fileJ p.2)]) fs
+    | .error _ => Json.null
   return obj [("components", jl (fun (p : String × List V) => Json.arr #[js p.1, jl js (sortStrings p.2)]) named),
-              ("model", modelJ), ("spec", Json.arr res.toArray)]
+              ("model", modelJ), ("model_files", filesJ), ("spec", Json.arr res.toArray)]
 
 end Gaftools.Drv.Order
